@@ -37,7 +37,10 @@ def _dec_kv(v):
 
 def _same_kv(model, real):
     m = _dec_kv(model)
-    return set(m) == set(real) and all(abs(m[k] - Fraction(float(real[k]))) <= Fraction(1, 10**12) for k in m)     # (0.8 the float vs 4/5 the literal)
+    try:
+        return set(m) == set(real) and all(abs(m[k] - Fraction(float(real[k]))) <= Fraction(1, 10**12) for k in m)     # (0.8 the float vs 4/5 the literal)
+    except (ValueError, TypeError, OverflowError):      # a NaN / None / non-numeric stored setting is not the model's
+        return False
 
 def _num(k, q):
     return int(q) if (k == 'min_n_cycles' and q.denominator == 1) else float(q)
